@@ -142,7 +142,35 @@ def run_for(frame, st):
             frame.block(st.orelse)
         return
     if spec is None:
-        raise E.Unsupported('loop %s:%d has a symbolic trip count and no loop contract' % key)
+        bound = F.BOUNDS.get(key, F.DEFAULT_BOUND)
+        if bound is None:
+            raise E.Unsupported('loop %s:%d has a symbolic trip count and no loop contract' % key)
+        # bounded stand-in: trip counts 0..bound are explored, longer ones are cut (reported, never counted as proved)
+        _, n, elem = view
+        P = E.cur()
+        cnt = None
+        for c in range(bound + 1):
+            if P.branch(n <= c):
+                cnt = c
+                break
+        if cnt is None:
+            P.notes.append(('bounded', key, bound))
+            BOUND_HITS.add((key, bound))
+            raise E.PathEnd()
+        BOUND_HITS.add((key, bound))
+        broke = False
+        for k in range(cnt):
+            frame.assign(st.target, elem(z3.IntVal(k)))
+            try:
+                frame.block(st.body)
+            except F.Break:
+                broke = True
+                break
+            except F.Continue:
+                continue
+        if not broke:
+            frame.block(st.orelse)
+        return
     _, n, elem = view
     ctx = LoopCtx(frame, n, elem, key, st)
     run_with_contract(frame, st, spec, ctx, target=st.target)
@@ -155,7 +183,7 @@ def run_while(frame, st):
         spec = None
     if spec is None:
         count = 0
-        bound = F.BOUNDS.get(key)
+        bound = F.BOUNDS.get(key, F.DEFAULT_BOUND)
         while ops.truth(frame.ev(st.test)):
             count += 1
             if bound is not None and count > bound:
@@ -297,6 +325,9 @@ def comp_map(frame, e, g, n, elem):
     if isinstance(v, SEnum):
         term = v.idx
         return SSeq(n, lambda i, term=term, j=j: z3.substitute(term, (j, V.iv(i))), 'list', ('enum', v.cls))
+    if isinstance(v, SSeq) and v.kind in ('bytes', 'bytearray') and z3.is_int_value(v.n) and v.n.as_long() == 1:
+        term = v.at(z3.IntVal(0))
+        return SSeq(n, lambda i, term=term, j=j: z3.substitute(term, (j, V.iv(i))), 'list', 'byte1')
     raise E.Unsupported('comprehension element of type %s' % type(v).__name__)
 
 
@@ -477,3 +508,52 @@ class FunctionalLoop(object):
         keep = {p.split('.')[0] for p in self._state(frame, ctx, z3.IntVal(0))}
         for nme in names - keep:
             frame.env[nme] = Poison(nme)
+
+
+class HavocLoop(object):
+    """classic loop contract: the listed variables are havocked (fresh values of the same sort), the invariant
+    `inv(frame) -> [(name, z3 Bool)]` over the current state is assumed before and proved after an arbitrary iteration"""
+    force = False
+
+    def __init__(self, variables, inv=None):
+        self.variables, self._inv = list(variables), inv
+
+    def _inv_list(self, frame):
+        return list(self._inv(frame)) if self._inv else []
+
+    def entry(self, frame, ctx):
+        return self._inv_list(frame)
+
+    def _havoc(self, frame):
+        P = E.cur()
+        for path in self.variables:
+            cur = _get_path(frame, path)
+            if isinstance(cur, (SInt, SBool)) or (isinstance(cur, int) and not isinstance(cur, bool)):
+                _set_path(frame, path, SInt(V.fresh_int('hv_' + path.replace('.', '_'))))
+            elif isinstance(cur, (SSeq, bytes, bytearray)):
+                kind = ops.seq_kind_of(cur)
+                seq, facts = V.base_seq('hv_' + path.replace('.', '_'), kind, byte_valued=kind in ('bytes', 'bytearray'))
+                for f in facts:
+                    P.assume(f)
+                _set_path(frame, path, seq)
+            else:
+                raise E.Unsupported('havoc of %s (%s)' % (path, type(cur).__name__))
+        for name, f in self._inv_list(frame):
+            P.assume(f)
+
+    def arbitrary(self, frame, ctx, k):
+        self._havoc(frame)
+
+    def after(self, frame, ctx, k):
+        return self._inv_list(frame)
+
+    def exit(self, frame, ctx):
+        self._havoc(frame)
+        st = ctx.stmt
+        names = assigned_names(st.body) | (assigned_names([st.target]) if hasattr(st, 'target') else set())
+        keep = {p.split('.')[0] for p in self.variables}
+        for nme in names - keep:
+            frame.env[nme] = Poison(nme)
+
+    def on_break(self, frame, ctx, k):
+        pass
